@@ -39,6 +39,8 @@ pub fn realise(case: &Value) -> Vec<(String, Value, Value, DecodedMap)> {
                 if key % 5 == 2 { sm.set_source_root(None::<String>); }
                 if key % 2 == 1 { sm.set_file(Some("f2.js")); }
                 if n > 0 && key % 3 == 0 { sm.add_to_ignore_list(key % n); }
+                // every public mutator belongs to the route: remove_names() empties the table and leaves the raw ids behind
+                if key % 4 == 3 || (key % 4 == 1 && sm.get_name_count() > 0 && digest.rem_euclid(2) == 0) { sm.remove_names(); }
                 v.push(("new+setters".to_string(), json!([]), json!([]), DecodedMap::Regular(sm)));
             }
         }
